@@ -272,12 +272,19 @@ impl Property for C04 {
                                     nontrivial = true;
                                 }
                                 // if the crate itself says that a variable of this name is in
-                                // scope here (although none can be, by the scope rule), what was
-                                // read is that variable: a scoping matter (C01 / C18), not this
-                                // property's
-                                let crate_sees_variable = matches!(real.vars.get(i), Some(Some(vs)) if vs.contains_key(name));
+                                // scope here although none can be, by the scope rule (the variable
+                                // of a loop that has ended, say), what was read is that variable:
+                                // only a variable IN SCOPE takes precedence over the output
+                                let crate_sees_variable = matches!(real.vars.get(i), Some(Some(vs)) if vs.get(name) == Some(&shown));
                                 if shown != v && crate_sees_variable {
-                                    out.class("name-is-a-variable-for-the-crate");
+                                    out.fail(
+                                        "c04:out-of-scope-variable-takes-precedence",
+                                        format!(
+                                            "item {i} (source row #{}): ({name}) evaluated to {shown}, the value of a variable {name} that is not in scope at that row (vars() still lists it); the device returned {name} = {v} in the latest output-reading call (driver call #{group_call})",
+                                            tag - 1
+                                        ),
+                                    );
+                                    return out;
                                 } else if shown != v {
                                     out.fail(
                                         "c04:stale-or-wrong-device-value",
